@@ -18,10 +18,11 @@ const (
 	KError
 	KPanic
 	KMarshalPanic // the value is produced, but serialising it panics (custom scalar only)
+	KAddErrNull   // the resolver records an error with graphql.AddError and returns nil, nil
 )
 
 func (k Kind) String() string {
-	return [...]string{"value", "null", "error", "panic", "marshal-panic"}[k]
+	return [...]string{"value", "null", "error", "panic", "marshal-panic", "adderror-null"}[k]
 }
 
 // DirKind is what the @guard directive does at a position.
@@ -62,7 +63,7 @@ func h64(seed uint64, key string) uint64 {
 // type can express null (model parameter P1).
 func (p *Plan) Resolver(path string, nilable bool) Kind {
 	if k, ok := p.Faults[path]; ok {
-		if k == KNull && !nilable {
+		if (k == KNull || k == KAddErrNull) && !nilable {
 			return KValue
 		}
 		if k == KMarshalPanic {
@@ -72,6 +73,11 @@ func (p *Plan) Resolver(path string, nilable bool) Kind {
 	}
 	r := int(h64(p.Seed, "r|"+path) % 1000)
 	if r < p.ErrPM {
+		// a third of the failing nilable positions report their error through graphql.AddError
+		// and return nil, nil instead of returning the error
+		if nilable && h64(p.Seed, "ae|"+path)%3 == 0 {
+			return KAddErrNull
+		}
 		return KError
 	}
 	if nilable && r < p.ErrPM+p.NullPM {
